@@ -142,7 +142,7 @@ pub mod t {
     #[kani::proof]
     #[kani::unwind(10)]
     pub fn query_select_adapt_u16() {
-        query_u16(false);
+        query_u16(Kind::Adapt);
     }
 
     /// The same after the backend has been replaced through `SelectAdapt::map` (identity closure):
@@ -150,15 +150,50 @@ pub mod t {
     #[kani::proof]
     #[kani::unwind(10)]
     pub fn query_select_adapt_u16_after_map() {
-        query_u16(true);
+        query_u16(Kind::AdaptMap);
     }
 
-    fn query_u16(through_map: bool) {
+    /// The const-generic twin `SelectAdaptConst<_, _, 3, 0>` (same layout:
+    /// 8 ones per inventory entry, 2 per 16-bit subinventory entry).
+    #[kani::proof]
+    #[kani::unwind(10)]
+    pub fn query_select_adapt_const_u16() {
+        query_u16(Kind::AdaptConst);
+    }
+
+    /// `SelectZeroAdapt::select_zero`: the same invariant stated over the zeros.
+    #[kani::proof]
+    #[kani::unwind(10)]
+    pub fn query_select_zero_adapt_u16() {
+        query_u16(Kind::ZeroAdapt);
+    }
+
+    /// `SelectZeroAdaptConst<_, _, 3, 0>::select_zero`.
+    #[kani::proof]
+    #[kani::unwind(10)]
+    pub fn query_select_zero_adapt_const_u16() {
+        query_u16(Kind::ZeroAdaptConst);
+    }
+
+    #[derive(Clone, Copy, PartialEq)]
+    enum Kind {
+        Adapt,
+        AdaptMap,
+        AdaptConst,
+        ZeroAdapt,
+        ZeroAdaptConst,
+    }
+
+    fn query_u16(kind: Kind) {
         const L: usize = 3;
         const M: usize = 0;
         const S16: usize = 1;
         const INV: usize = 8;
+        let zero = kind == Kind::ZeroAdapt || kind == Kind::ZeroAdaptConst;
+        // `w` is the word whose ones are selected: the stored word for the
+        // one-selectors, its complement for the zero-selectors.
         let w: usize = kani::any();
+        let stored = if zero { !w } else { w };
         let ones = w.count_ones() as usize;
         let inv: [usize; INV * 2 + 1] = kani::any();
         let ninv = (ones + 7) / 8;
@@ -183,13 +218,22 @@ pub mod t {
             }
             i += 1;
         }
-        let bv = unsafe { BitVec::from_raw_parts([w], 64) };
-        let bv = unsafe { AddNumBits::from_raw_parts(bv, ones) };
-        let sel = unsafe { SelectAdapt::verif_from_raw_parts(bv, inv, [0usize; INV * 2 + 1], L, S16, M) };
-        let sel = if through_map { unsafe { sel.map(|b| b) } } else { sel };
+        let bv = unsafe { BitVec::from_raw_parts([stored], 64) };
+        let bv = unsafe { AddNumBits::from_raw_parts(bv, stored.count_ones() as usize) };
+        let spill = [0usize; INV * 2 + 1];
         let r: usize = kani::any();
         kani::assume(r <= 65);
-        match sel.select(r) {
+        let res = match kind {
+            Kind::Adapt => unsafe { SelectAdapt::verif_from_raw_parts(bv, inv, spill, L, S16, M) }.select(r),
+            Kind::AdaptMap => {
+                let sel = unsafe { SelectAdapt::verif_from_raw_parts(bv, inv, spill, L, S16, M) };
+                unsafe { sel.map(|b| b) }.select(r)
+            }
+            Kind::AdaptConst => unsafe { SelectAdaptConst::<_, _, L, M>::verif_from_raw_parts(bv, inv, spill) }.select(r),
+            Kind::ZeroAdapt => unsafe { SelectZeroAdapt::verif_from_raw_parts(bv, inv, spill, L, S16, M) }.select_zero(r),
+            Kind::ZeroAdaptConst => unsafe { SelectZeroAdaptConst::<_, _, L, M>::verif_from_raw_parts(bv, inv, spill) }.select_zero(r),
+        };
+        match res {
             None => {
                 assert!(r >= ones);
             }
